@@ -429,6 +429,7 @@ def run_shard(shard: int, nshards: int, seed: int, tier: str) -> ShardResult:
     res.count("cross_process_keys", 3 * len(items) * len(hs))
     for spec_json, _, _ in items:
         res.nontrivial.add("xproc:" + spec_hash(json.loads(spec_json)))
+        res.evaluations += 1          # (the cross-process comparison)
     for f, case in _xproc_failures(items, keys, out):
         res.fail(f, case)
     return res
